@@ -21,6 +21,7 @@ import (
 func init() {
 	mon.Register(&mon.Check{
 		ID:        "C05",
+		Boost:     12,
 		Batches:   func(tier string) int { return 16 },
 		Run:       runC05,
 		Technique: "scripted-delivery runtime monitor: the real server loop and Client.Send read from an in-memory connection whose chunking is dictated by generated segmentation schedules; a wrapping Handler records what is delivered and the event log shows every Read/Close",
